@@ -1,24 +1,14 @@
 //! C05 — rendering is deterministic: the same history rendered under different hash entropies (fresh
 //! threads with PRNG-chosen `RandomState` keys), and twice on the same thread, gives identical bytes.
 
-use super::{add, bump, snake_key, Ctr, Exec, Prop, Scenario, Violation};
+use super::{add, all_opts, bump, snake_key, Ctr, Exec, Prop, Scenario, Violation};
 use crate::dom::{gen_doc, gen_skel, GenCfg};
 use crate::model::{infer, MNode};
 use crate::rng::{Fnv, Rng};
-use crate::session::{run_session, trace_hash, Input, RenderOpt, Replica, Session, Step, Want};
+use crate::session::{run_session, trace_hash, Input, Replica, Session, Step, Want};
 use crate::simreader::Plan;
 
 pub struct C05;
-
-pub fn all_opts(derive: &str) -> Vec<RenderOpt> {
-    let mut v = Vec::new();
-    for sx in [false, true] {
-        for bn in [false, true] {
-            v.push(RenderOpt { serde_xml_rs: sx, by_name: bn, derive: derive.to_string() });
-        }
-    }
-    v
-}
 
 /// positions with ≥ 2 optional children / with two children whose field keys collide
 pub fn collision_probes(m: &MNode, multi_opt: &mut u64, key_collide: &mut u64, both: &mut u64) {
